@@ -720,16 +720,25 @@ def uniform(a, b, steps=Params.steps):
     # loc, scale = uniform_reparameterisation(a,  b)
     # return uniform_sps(loc, scale)
 
+    from .intervals.number import Interval as I
+
     a, b = [wc_scalar_interval(arg) for arg in [a, b]]
 
     Left = np.linspace(a.left, b.left, steps)
     Right = np.linspace(a.right, b.right, steps)
+
+    # moments of U(a0, b0), a0 in a, b0 in b:  mean (a0+b0)/2 , variance (b0-a0)^2/12
+    mean = I((a.left + b.left) / 2, (a.right + b.right) / 2)
+    w_lo, w_hi = max(b.left - a.right, 0.0), b.right - a.left
+    var = I(w_lo**2 / 12, w_hi**2 / 12)
 
     return Leaf(
         left=Left,
         right=Right,
         steps=steps,
         shape="uniform",
+        mean=mean,
+        var=var,
     )
 
 
